@@ -163,11 +163,12 @@ def run(report, index, tier):
     r014(report, index)
     r015(report, M)
     report.not_decided += [
-        'that walker.walk implements the rule semantics assumed '
-        '(trusted, digest-guarded)',
+        'walker.walk on rule sequences longer than the evaluated ones '
+        '(R01.7 evaluates it from its source on every sequence of up to '
+        'three rules, thorough four)',
         'indentation strings containing non-white-space',
         'array literals longer than the enumeration bound']
     report.trusted_base += [
-        'transcription of walker.process_layouts (digest-guarded)',
+        'the abstract evaluator (walker.walk / process_layouts / the Token classes are evaluated from their source, not transcribed)',
         'regex front end of CPython (re._parser)',
         'transcription of ply.lex rule ordering', 'ES5 7.8.3 / 7.9.1 facts']
